@@ -34,6 +34,8 @@ var concKinds = []concKind{
 	{"bad(7)", 7, true},
 	{"o.Bad(8)", 8, true},
 	{"M[kk] = 3", 0, false}, // the key is a rule local: the store looks it up in the local store
+	{"lo.M(9)", 9, false},   // method call whose receiver is a rule local (looked up in the local store)
+	{"lo.P.M(10)", 10, false},
 }
 
 type concCfg struct {
@@ -72,7 +74,7 @@ func concText(cfg concCfg) string {
 		n = 2
 	}
 	for r := 0; r < n; r++ {
-		fmt.Fprintf(&sb, "rule \"c%d\" begin\n x = 0\n y = 0\n x0 = 5\n kk = \"k\"\n", r)
+		fmt.Fprintf(&sb, "rule \"c%d\" begin\n x = 0\n y = 0\n x0 = 5\n kk = \"k\"\n lo = mk()\n", r)
 		if cfg.InFor {
 			sb.WriteString(" for i = 0; i < 2; i += 1 {\n")
 		}
@@ -107,6 +109,7 @@ func concScenario(cfg concCfg) *hx.Scenario {
 				"inj":  st.inj,
 				"M":    st.m,
 				"zero": int64(0),
+				"mk":   func() *concObj { return &concObj{P: &concSub{l}, l: l} },
 				"after": func(x, y, f, mk int64) {
 					l.Ev("after", 0)
 					if !vsched.Aborted() {
@@ -290,8 +293,8 @@ func concConfigs(thorough bool) []concCfg {
 	for a := 0; a < n; a++ {
 		for b := a + 1; b < n; b++ {
 			for c := b + 1; c < n; c++ {
-				if c == n-1 && !(a <= 3 || a == 8) {
-					continue // the local-key store: triples with a representative first sibling only
+				if c >= 11 && (b >= 11 || !(a <= 3 || a == 8)) {
+					continue // local-key store, local receivers: triples with representative siblings only
 				}
 				out = append(out, concCfg{Kids: []int{a, b, c}})
 			}
@@ -308,7 +311,7 @@ func init() {
 		BudgetQuick: 150 * time.Second,
 		BudgetThor:  25 * time.Minute,
 		Kind:        "schedules",
-		Rule: "every conc block with 1..3 distinct children over 12 statement kinds (assignments to the same / different locals, injected field, map entry with a literal and with a rule-local key; function, method, three-level calls; failing assignment / function / method), also re-entered inside a for loop and in two concurrently running rules; " +
+		Rule: "every conc block with 1..3 distinct children over 14 statement kinds (assignments to the same / different locals, injected field, map entry with a literal and with a rule-local key; function, method, three-level calls on injected objects and on an object held in a rule local; failing assignment / function / method), also re-entered inside a for loop and in two concurrently running rules; " +
 			"every schedule of the block's goroutines (4 spawners + one per child) with <=2 (thorough 3) preemptions for 1-2 children and <=1 (thorough 2) for 3 children / two rules; oracle: each child exactly once, every child end before the next statement, next statement observes all assignments, failure => error after all children finished and the next statement does not run, nothing still runs after the call returned",
 		Assume: []string{"injected functions terminate", "sequentially consistent memory (races are C19's subject)"},
 		Run: func(c *hx.Ctx) {
